@@ -10,7 +10,8 @@
 From GoRes Require Export Conform.Model.
 Open Scope N_scope.
 
-Record ccase := CC { c_cfg : cfg; c_tops : list top; c_obs : list pubmsg }.
+(* c_seen: per request whose handler ran, (reply subject, (IsHTTP(), CID())) as the handler observed them *)
+Record ccase := CC { c_cfg : cfg; c_tops : list top; c_obs : list pubmsg; c_seen : list (bytes * (bool * bytes)) }.
 
 Definition payload_eqb (a b : payload) : bool :=
   match a, b with
@@ -26,7 +27,7 @@ Definition ctx_eqb (a b : ctx) : bool :=
   | _, _ => false
   end.
 
-(* field codes: 1 number of messages  2 subject  3 payload  4 context *)
+(* field codes: 1 number of messages  2 subject  3 payload  4 context  5 request flags seen by the handler *)
 Fixpoint cmp_pubs (m o : list pubmsg) : list N :=
   match m, o with
   | [], [] => []
@@ -37,7 +38,15 @@ Fixpoint cmp_pubs (m o : list pubmsg) : list N :=
       match d with [] => cmp_pubs m' o' | _ => d end
   | _, _ => [1]
   end.
-Definition check_case (c : ccase) : list N := cmp_pubs (publications (c_cfg c) (c_tops c)) (c_obs c).
+(* 5: the handler of a request observed an HTTP flag / connection id other than the request carried *)
+Definition seen_ok (ts : list top) (x : bytes * (bool * bytes)) : bool :=
+  existsb (fun t => match t with
+                    | TRequest r _ => beq (rreply r) (fst x) && Bool.eqb (rhttp r) (fst (snd x)) && beq (rcid r) (snd (snd x))
+                    | _ => false
+                    end) ts.
+Definition check_case (c : ccase) : list N :=
+  cmp_pubs (publications (c_cfg c) (c_tops c)) (c_obs c) ++
+  (if forallb (seen_ok (c_tops c)) (c_seen c) then [] else [5]).
 
 Fixpoint dedup (l : list N) : list N :=
   match l with
